@@ -69,6 +69,17 @@ class ClassContract:
     task_inv: Dict[str, List[Clause]] = field(default_factory=dict)
     published_inv: List[Clause] = field(default_factory=list)
     task_stable: Dict[str, List[str]] = field(default_factory=dict)
+    # lock field -> fields that are only written while that lock is held (checked syntactically,
+    # see verify.lock_discipline): they keep their value across a suspension of the holder
+    lock_protected: Dict[str, List[str]] = field(default_factory=dict)
+    # lock field -> monitor invariant: holds whenever the lock is free (assumed on acquiring,
+    # proved on releasing and at unit exit; neither proved nor assumed while the unit holds it)
+    monitor_inv: Dict[str, List[Clause]] = field(default_factory=dict)
+    # fields assigned at exactly one program point of the class outside __init__ (not in a loop):
+    # once set they keep their value across suspensions (static obligation `write-once`)
+    write_once: List[str] = field(default_factory=list)
+    # a port (interface view of a repository class): the real class it stands for
+    view_of: Optional[str] = None
 
 
 @dataclass
@@ -125,6 +136,10 @@ class Registry:
         task_inv: Optional[Dict[str, List[ClauseSrc]]] = None,
         published_inv: Optional[List[ClauseSrc]] = None,
         task_stable: Optional[Dict[str, List[str]]] = None,
+        lock_protected: Optional[Dict[str, List[str]]] = None,
+        monitor_inv: Optional[Dict[str, List[ClauseSrc]]] = None,
+        write_once: Optional[List[str]] = None,
+        view_of: Optional[str] = None,
     ) -> ClassContract:
         short = qualname.split(":")[1]
         c = ClassContract(
@@ -140,6 +155,10 @@ class Registry:
             task_inv={t: mk_clauses(f"{short}.inv[{t}]", cs, props) for t, cs in (task_inv or {}).items()},
             published_inv=mk_clauses(f"{short}.published", published_inv, props),
             task_stable=dict(task_stable or {}),
+            lock_protected=dict(lock_protected or {}),
+            monitor_inv={t: mk_clauses(f"{short}.monitor[{t}]", cs, props) for t, cs in (monitor_inv or {}).items()},
+            write_once=list(write_once or []),
+            view_of=view_of,
         )
         self.classes[qualname] = c
         return c
